@@ -21,7 +21,7 @@ type Spec struct {
 	Seed   uint64 `json:"seed"`
 	PalN   int    `json:"paln,omitempty"`
 	Wrap   bool   `json:"wrap,omitempty"` // hide the concrete type
-	// StrideExtra: extra bytes at the end of every row of the parent's pixel buffer (single-buffer types only); the
+	// StrideExtra: extra bytes at the end of every row of the parent's pixel buffer (for Y'CbCr types: every plane gets a stride of its own); the
 	// image package allows any stride >= the row's byte length
 	StrideExtra int `json:"stride_extra,omitempty"`
 }
@@ -142,6 +142,26 @@ func widen(pix *[]uint8, stride *int, rows, extra int) {
 	}
 	*stride += extra
 	*pix = make([]uint8, *stride*rows)
+}
+
+// widenPlanes gives the planes of a Y'CbCr image strides of their own: luma rows extra bytes longer, chroma rows
+// extra/2+1 bytes longer (so that even 4:4:4 planes differ in stride), alpha rows extra+3 bytes longer - planes
+// allocated separately, as video decoders and aligned allocators hand them over.
+func widenPlanes(m *image.YCbCr, a *image.NYCbCrA, extra int) {
+	if extra <= 0 || m.YStride <= 0 || m.CStride <= 0 {
+		return
+	}
+	rowsY, rowsC := len(m.Y)/m.YStride, len(m.Cb)/m.CStride
+	m.YStride += extra
+	m.CStride += extra/2 + 1
+	m.Y = make([]uint8, rowsY*m.YStride)
+	m.Cb = make([]uint8, rowsC*m.CStride)
+	m.Cr = make([]uint8, rowsC*m.CStride)
+	if a != nil && a.AStride > 0 {
+		rowsA := len(a.A) / a.AStride
+		a.AStride += extra + 3
+		a.A = make([]uint8, rowsA*a.AStride)
+	}
 }
 
 var Types = []string{"RGBA64", "NRGBA64", "RGBA", "NRGBA", "YCbCr", "NYCbCrA", "Gray", "Gray16", "Alpha", "Alpha16", "CMYK", "Paletted"}
@@ -296,12 +316,14 @@ func Build(s Spec) Built {
 		parent, bufs = m, []*[]byte{&m.Pix}
 	case "YCbCr":
 		m := image.NewYCbCr(pr, Ratios[s.Ratio%len(Ratios)])
+		widenPlanes(m, nil, s.StrideExtra)
 		f.fill(m.Y)
 		f.fill(m.Cb)
 		f.fill(m.Cr)
 		parent, bufs = m, []*[]byte{&m.Y, &m.Cb, &m.Cr}
 	case "NYCbCrA":
 		m := image.NewNYCbCrA(pr, Ratios[s.Ratio%len(Ratios)])
+		widenPlanes(&m.YCbCr, m, s.StrideExtra)
 		f.fill(m.Y)
 		f.fill(m.Cb)
 		f.fill(m.Cr)
@@ -443,7 +465,7 @@ func Gen(t *rapid.T, label string, o GenOpts) Spec {
 		}
 		s.Parent = [4]int{x0 - ml, y0 - mt, x0 + w + mr, y0 + h + mb}
 	}
-	if !ycc && rapid.IntRange(0, 5).Draw(t, label+"widestride") == 0 {
+	if rapid.IntRange(0, 5).Draw(t, label+"widestride") == 0 {
 		s.StrideExtra = rapid.SampledFrom([]int{1, 2, 3, 4, 5, 8, 13, 64}).Draw(t, label+"strideextra")
 	}
 	fills := []string{"prng", "prng", "prng", "ff", "zero", "ramp", "rowbands", "colbands", "sparse", "edges", "flatrows", "flatrows", "flatcols", "flat"}
